@@ -63,4 +63,63 @@ unsigned long vp_backend_max_binned_small() { return Backend::maxBinned_SmallPag
 unsigned long vp_backend_max_binned_huge() { return Backend::maxBinned_HugePage; }
 unsigned long vp_backend_bin_step() { return Backend::freeBinsStep; }
 int vp_backend_huge_bin() { return Backend::HUGE_BIN; }
+
+// ---- raw memory / regions (backend.cpp): user pool built field by field in a zero-filled MemoryPool owned by the harness
+void vp_pool_setup(void* pool, void* rawAlloc, void* rawFree, unsigned long granularity, unsigned fixed, unsigned keepAll, long poolId, long bootstrapStatus) {
+  MemoryPool* p = (MemoryPool*)pool; ExtMemoryPool* e = &p->extMemPool;
+  e->poolId = poolId; e->rawAlloc = (rml::rawAllocType)rawAlloc; e->rawFree = (rml::rawFreeType)rawFree; e->granularity = granularity;
+  e->keepAllMemory = keepAll; e->fixedPool = fixed; e->delayRegsReleasing = false;
+  e->backend.extMemPool = e; e->backend.bootsrapMemStatus.store(bootstrapStatus, std::memory_order_relaxed);
+}
+void vp_pool_set_total(void* pool, unsigned long t) { ((MemoryPool*)pool)->extMemPool.backend.totalMemSize.store(t, std::memory_order_relaxed); }
+unsigned long vp_pool_total(void* pool) { return ((MemoryPool*)pool)->extMemPool.backend.totalMemSize.load(std::memory_order_relaxed); }
+void* vp_region_head(void* pool) { return ((MemoryPool*)pool)->extMemPool.backend.regionList.head; }
+void vp_region_set_head(void* pool, void* r) { ((MemoryPool*)pool)->extMemPool.backend.regionList.head = (MemRegion*)r; }
+void* vp_region_next(void* r) { return ((MemRegion*)r)->next; }
+void* vp_region_prev(void* r) { return ((MemRegion*)r)->prev; }
+unsigned long vp_region_allocsz(void* r) { return ((MemRegion*)r)->allocSz; }
+unsigned long vp_region_blocksz(void* r) { return ((MemRegion*)r)->blockSz; }
+int vp_region_type(void* r) { return ((MemRegion*)r)->type; }
+unsigned long vp_sizeof_region() { return sizeof(MemRegion); }
+unsigned long vp_sizeof_lastfree() { return sizeof(LastFreeBlock); }
+unsigned long vp_sizeof_freeblock() { return sizeof(FreeBlock); }
+long vp_bootstrap_done() { return Backend::bootsrapMemDone; }
+void* vp_add_region(void* pool, unsigned long size, int type, int addToBin) { return ((MemoryPool*)pool)->extMemPool.backend.addNewRegion(size, (MemRegionType)type, addToBin); }
+void* vp_alloc_raw(void* pool, unsigned long* size) { return ((MemoryPool*)pool)->extMemPool.backend.allocRawMem(*size); }
+int vp_free_raw(void* pool, void* obj, unsigned long size) { return ((MemoryPool*)pool)->extMemPool.backend.freeRawMem(obj, size); }
+void* vp_map_memory(unsigned long bytes, int pageType) { return MapMemory(bytes, (PageType)pageType); }
+int vp_unmap_memory(void* p, unsigned long bytes) { return UnmapMemory(p, bytes); }
+unsigned long vp_huge_page_size() { return HUGE_PAGE_SIZE; }
+void vp_hugepages_set(unsigned enabled, unsigned hpAvail, unsigned thpAvail) { hugePages.isEnabled = enabled; hugePages.isHPAvailable = hpAvail; hugePages.isTHPAvailable = thpAvail; }
+
+// ---- back references (backref.cpp)
+unsigned long vp_sizeof_backrefmain() { return sizeof(BackRefMain); }
+unsigned long vp_sizeof_backrefblock() { return sizeof(BackRefBlock); }
+int vp_br_datasz() { return BackRefMain::dataSz; }
+int vp_br_maxcnt() { return BR_MAX_CNT; }
+unsigned long vp_br_blockspace() { return BackRefMain::blockSpaceSize; }
+void vp_br_main_setup(void* m, void* backend, void* active, void* listForUse, long lastUsed) {
+  BackRefMain* b = (BackRefMain*)m; b->backend = (Backend*)backend; b->active.store((BackRefBlock*)active, std::memory_order_relaxed);
+  b->listForUse.store((BackRefBlock*)listForUse, std::memory_order_relaxed); b->allRawMemBlocks = nullptr; b->lastUsed.store(lastUsed, std::memory_order_relaxed); b->rawMemUsed = false;
+  backRefMain.store(b, std::memory_order_relaxed);
+}
+void vp_br_block_setup(void* bl, void* bump, void* freeList, int allocated, unsigned myNum, unsigned addedToForUse, void* nextForUse) {
+  BackRefBlock* b = (BackRefBlock*)bl; b->bumpPtr = (FreeObject*)bump; b->freeList = (FreeObject*)freeList; b->allocatedCount.store(allocated, std::memory_order_relaxed);
+  b->myNum = myNum; b->addedToForUse.store(addedToForUse, std::memory_order_relaxed); b->nextForUse = (BackRefBlock*)nextForUse; b->nextRawMemBlock = nullptr;
+}
+void* vp_br_active() { return backRefMain.load(std::memory_order_relaxed)->active.load(std::memory_order_relaxed); }
+void* vp_br_list() { return backRefMain.load(std::memory_order_relaxed)->listForUse.load(std::memory_order_relaxed); }
+void* vp_br_rawlist() { return backRefMain.load(std::memory_order_relaxed)->allRawMemBlocks; }
+long vp_br_lastused() { return backRefMain.load(std::memory_order_relaxed)->lastUsed.load(std::memory_order_relaxed); }
+int vp_br_block_count(void* bl) { return ((BackRefBlock*)bl)->allocatedCount.load(std::memory_order_relaxed); }
+void* vp_br_block_bump(void* bl) { return ((BackRefBlock*)bl)->bumpPtr; }
+void* vp_br_block_freelist(void* bl) { return ((BackRefBlock*)bl)->freeList; }
+unsigned vp_br_block_added(void* bl) { return ((BackRefBlock*)bl)->addedToForUse.load(std::memory_order_relaxed); }
+int vp_br_request_space() { return backRefMain.load(std::memory_order_relaxed)->requestNewSpace(); }
+void* vp_br_find_free() { return backRefMain.load(std::memory_order_relaxed)->findFreeBlock(); }
+unsigned long vp_br_new(unsigned large) { return idx_bits(BackRefIdx::newBackRef(large)); }
+void vp_br_remove(unsigned long idxbits) { removeBackRef(bits_idx(idxbits)); }
+void* vp_br_get(unsigned long idxbits) { return getBackRef(bits_idx(idxbits)); }
+void vp_br_set(unsigned long idxbits, void* p) { setBackRef(bits_idx(idxbits), p); }
+int vp_br_init(void* backend) { return initBackRefMain((Backend*)backend); }
 }
